@@ -8,6 +8,7 @@
 //!   pretty <hex>      parse; print every tree with Display and to_pretty(60); parse again; compare
 //!   write <datum>     build the value, `(write d port)` into a string port; hex of the text
 //!   roundtrip <datum> write, then `(read (open-input-string text))`, then `(equal? d back)`
+//!   eval <hex>        run the program text on a fresh-enough engine: ok <datum of last value> | err <first line> | panic ..
 //!   unitable          the two escape classifications of Rust's `{:?}` used by the writer
 //! stdout: one line per request (see the functions below), flushed per line.
 //!   A panic of the code under test is reported as `panic <message>` (a violation of C12 and C07).
@@ -607,6 +608,27 @@ fn main() {
                 }
                 Some(Err(_)) => "bad not-utf8".to_string(),
                 None => "bad hex".to_string(),
+            },
+            "eval" => match unhex(arg).map(String::from_utf8) {
+                Some(Ok(src)) => {
+                    if world.is_none() {
+                        world = Some(World::new());
+                    }
+                    let w = world.as_mut().unwrap();
+                    let r = catch_unwind(AssertUnwindSafe(|| w.engine.compile_and_run_raw_program(src)));
+                    match r {
+                        Ok(Ok(vals)) => match vals.last() {
+                            Some(v) => format!("ok {}", dumps(v)),
+                            None => "ok none".to_string(),
+                        },
+                        Ok(Err(e)) => format!("err {}", hex(format!("{}", e).lines().next().unwrap_or("").as_bytes())),
+                        Err(p) => {
+                            world = None;
+                            panic_msg(p)
+                        }
+                    }
+                }
+                _ => "bad hex".to_string(),
             },
             "write" | "roundtrip" => {
                 if world.is_none() {
